@@ -3,7 +3,7 @@ import argparse, hashlib, json, os, re, shutil, subprocess, sys, time, tomllib
 from concurrent.futures import ThreadPoolExecutor
 
 ROOT = os.path.dirname(os.path.dirname(os.path.abspath(__file__)))
-VX = os.path.join(ROOT, "tools/vx/target/release/vx")
+VX = os.environ.get("VX_BIN") or os.path.join(ROOT, "tools/vx/target/release/vx")   # VX_BIN: a development build (never set by registered commands)
 BUILD = os.path.join(ROOT, "build")
 VERUS_RLIMIT = "30"
 VERUS_TIMEOUT_S = 180
